@@ -57,7 +57,9 @@ const CLASSES: &[char] = &[
     '/', '{', '}', ',', '=', '#', ':', '[', ']', '\'', '%', '<', '&', 'é', 'ß', '€', '\u{80}', '\u{9f}',
     '\u{2028}', '\u{feff}', '\u{d7ff}', '\u{e000}', '😀', '\u{10ffff}',
 ];
-const SPECIAL: &[char] = &['"', '\\', '\n', '\r', '\t', '\0', '\u{1}', '\u{8}', '\u{c}', '\u{1f}', '\u{7f}', '\u{2028}'];
+const SPECIAL: &[char] = &['"', '\\', '\n', '\r', '\t', '\0', '\u{1}', '\u{8}', '\u{c}', '\u{1f}', '\u{7f}', '\u{2028}',
+    // C1 controls (char::is_control is true for them, they are multi-byte in UTF-8), NBSP, the last code point
+    '\u{80}', '\u{85}', '\u{9f}', '\u{a0}', '\u{10ffff}'];
 
 fn nasty(rng: &mut Rng, max: u64) -> String {
     let n = rng.below(max + 1);
